@@ -519,7 +519,7 @@ section sel
 variable {L : Type} [LT L] [DecidableLT L]
 
 theorem localMaxima_mem (k : Nat) (E : List L) (i : Nat) (hi : i ∈ localMaxima k E) :
-    ∃ j a b c, i = k + j + 1 ∧ E[j]? = some a ∧ E[j + 1]? = some b ∧ E[j + 2]? = some c ∧ a < b ∧ c < b := by
+    ∃ j a b c, i = k + j + 1 ∧ E[j]? = some a ∧ E[j + 1]? = some b ∧ E[j + 2]? = some c ∧ a < b ∧ ¬ b < c := by
   fun_induction localMaxima k E with
   | case1 k a b c t hcond ih =>
     rcases List.mem_cons.mp hi with h | h
@@ -532,7 +532,7 @@ theorem localMaxima_mem (k : Nat) (E : List L) (i : Nat) (hi : i ∈ localMaxima
   | case3 k E hne => simp at hi
 
 theorem localMaxima_complete (k : Nat) (E : List L) (j : Nat) (a b c : L)
-    (h0 : E[j]? = some a) (h1 : E[j + 1]? = some b) (h2 : E[j + 2]? = some c) (hab : a < b) (hcb : c < b) :
+    (h0 : E[j]? = some a) (h1 : E[j + 1]? = some b) (h2 : E[j + 2]? = some c) (hab : a < b) (hcb : ¬ b < c) :
     k + j + 1 ∈ localMaxima k E := by
   induction E generalizing k j with
   | nil => simp at h0
@@ -568,10 +568,11 @@ theorem localMaxima_sorted (k : Nat) (E : List L) : (localMaxima k E).Pairwise (
 theorem climbIndices_length_le (cp : Nat) (E : List L) : (climbIndices cp E).length ≤ cp := by
   simp only [climbIndices, List.length_take]; omega
 
-/-- every chosen climbing image is an interior image whose energy is strictly above both neighbours. -/
+/-- every chosen climbing image is an interior image whose energy is strictly above the previous and not below the
+    next image's. -/
 theorem climbIndices_interior_max (cp : Nat) (E : List L) (i : Nat) (hi : i ∈ climbIndices cp E) :
     0 < i ∧ i + 1 < E.length ∧
-      ∃ a b c, E[i - 1]? = some a ∧ E[i]? = some b ∧ E[i + 1]? = some c ∧ a < b ∧ c < b := by
+      ∃ a b c, E[i - 1]? = some a ∧ E[i]? = some b ∧ E[i + 1]? = some c ∧ a < b ∧ ¬ b < c := by
   obtain ⟨j, a, b, c, e, h0, h1, h2, hab, hcb⟩ := localMaxima_mem 0 E i (List.mem_of_mem_take hi)
   have hl : j + 2 < E.length := by
     by_contra hn
@@ -584,7 +585,7 @@ theorem climbIndices_interior_max (cp : Nat) (E : List L) (i : Nat) (hi : i ∈ 
 /-- the chosen images are the *first* `cp` such maxima in path order. -/
 theorem climbIndices_first (cp : Nat) (E : List L) (i i' : Nat) (hi : i ∈ climbIndices cp E) (hlt : i' < i)
     (a b c : L) (hpos : 0 < i') (h0 : E[i' - 1]? = some a) (h1 : E[i']? = some b) (h2 : E[i' + 1]? = some c)
-    (hab : a < b) (hcb : c < b) : i' ∈ climbIndices cp E := by
+    (hab : a < b) (hcb : ¬ b < c) : i' ∈ climbIndices cp E := by
   obtain ⟨j, rfl⟩ : ∃ j, i' = j + 1 := ⟨i' - 1, by omega⟩
   have hm : 0 + j + 1 ∈ localMaxima 0 E := localMaxima_complete 0 E j a b c (by simpa using h0) h1 h2 hab hcb
   have hs := localMaxima_sorted 0 E
@@ -596,7 +597,7 @@ theorem climbIndices_first (cp : Nat) (E : List L) (i i' : Nat) (hi : i ∈ clim
 
 /-- with enough climbing points every interior strict maximum climbs. -/
 theorem climbIndices_complete (cp : Nat) (E : List L) (hcp : E.length ≤ cp) (j : Nat) (a b c : L)
-    (h0 : E[j]? = some a) (h1 : E[j + 1]? = some b) (h2 : E[j + 2]? = some c) (hab : a < b) (hcb : c < b) :
+    (h0 : E[j]? = some a) (h1 : E[j + 1]? = some b) (h2 : E[j + 2]? = some c) (hab : a < b) (hcb : ¬ b < c) :
     j + 1 ∈ climbIndices cp E := by
   have hm := localMaxima_complete 0 E j a b c h0 h1 h2 hab hcb
   have hlen : (localMaxima 0 E).length ≤ E.length := by
@@ -613,6 +614,8 @@ theorem climbIndices_complete (cp : Nat) (E : List L) (hcp : E.length ≤ cp) (j
 
 example : climbIndices 1 [0, 2, 1, 3, (0 : Int)] = [1] := by decide
 example : climbIndices 2 [0, 2, 1, 3, (0 : Int)] = [1, 3] := by decide
-example : climbIndices 1 [3, 1, 1, 2, 2, (0 : Int)] = [] := by decide
+example : climbIndices 1 [3, 1, 1, 2, 2, (0 : Int)] = [3] := by decide
+example : climbIndices 3 [0, 1, 1, (0 : Int)] = [1] := by decide
+example : climbIndices 3 [2, 1, 1, (3 : Int)] = [] := by decide
 end sel
 end Atomman.C20
